@@ -58,10 +58,21 @@ def run(eng, rep, tier):
     fu = prog.method("FST", "union")
     su = interp.run_entry(fu, FST)
     res = result_locs(su)
-    for role, meth, f in (("start", "add_start_state", ST), ("final", "add_final_state", FI)):
-        evs = [ev for ev, _ in calls(su, meth, recv_locs=res)]
+    from ..av import all_deps as _alld
+
+    def marks(summ_, res_, meth, field):
+        """dependences of every state put among the start / final states of the result: through add_start_state /
+        add_final_state, or by adding to the live set itself (`result.start_states.update(names)`)"""
+        out = [arg_deps(ev, 0) for ev, _ in calls(summ_, meth, recv_locs=res_) if ev.args]
+        for ev, _ in summ_.walk():
+            if ev.kind == "write" and ev.wkind in ("mutate:add", "mutate:update") and ev.recv is not None and ev.value is not None \
+                    and any(l[0] == r[0] and l[1] == r[1] + (field,) for l in ev.recv.alias for r in res_):
+                out.append(frozenset(_alld(ev.value)) | ev.ctrl)
+        return out
+    for role, meth, f, fld in (("start", "add_start_state", ST, "_start_states"), ("final", "add_final_state", FI, "_final_states")):
+        evs = marks(su, res, meth, fld)
         ob.decide("R1", "C16.2", fu, "union-%s-of-both" % role,
-                  any(tag(SELF, f) in arg_deps(ev, 0) for ev in evs) and any(tag(OTHER, f) in arg_deps(ev, 0) for ev in evs),
+                  any(tag(SELF, f) in d for d in evs) and any(tag(OTHER, f) in d for d in evs),
                   "%s states of both operands" % role, "union loses the %s states of an operand" % role, su,
                   site=site_of(prog, fu, fu.node))
     evs = [ev for ev, _ in calls(su, "add_transition", recv_locs=res)]
@@ -72,14 +83,14 @@ def run(eng, rep, tier):
     fc = prog.method("FST", "concatenate")
     sc = interp.run_entry(fc, FST)
     res = result_locs(sc)
-    sts = [ev for ev, _ in calls(sc, "add_start_state", recv_locs=res)]
-    fns = [ev for ev, _ in calls(sc, "add_final_state", recv_locs=res)]
+    sts = marks(sc, res, "add_start_state", "_start_states")
+    fns = marks(sc, res, "add_final_state", "_final_states")
     ob.decide("R1", "C16.2", fc, "concat-start-only-left",
-              bool(sts) and all(tag(SELF, ST) in arg_deps(ev, 0) and tag(OTHER, ST) not in arg_deps(ev, 0) for ev in sts),
+              bool(sts) and all(tag(SELF, ST) in d and tag(OTHER, ST) not in d for d in sts),
               "start states come from the left operand only", "concatenate takes start states from the right operand", sc,
               site=site_of(prog, fc, fc.node))
     ob.decide("R1", "C16.2", fc, "concat-final-only-right",
-              bool(fns) and all(tag(OTHER, FI) in arg_deps(ev, 0) and tag(SELF, FI) not in arg_deps(ev, 0) for ev in fns),
+              bool(fns) and all(tag(OTHER, FI) in d and tag(SELF, FI) not in d for d in fns),
               "final states come from the right operand only", "concatenate takes final states from the left operand", sc,
               site=site_of(prog, fc, fc.node))
     adds_ch = [(ev, ch) for ev, ch in calls(sc, "add_transition", own=True, recv_locs=res)]
@@ -168,6 +179,19 @@ def run(eng, rep, tier):
             return _replace(v, items=tuple(leaves))
         return None
     pushes = [ev for ev in evs_ if config_of(ev) is not None]
+    # the rules below read the search as configurations (remaining input, output, state) whose remaining input shrinks by
+    # slicing.  A search that walks the input another way (a position index, memoised silent closures) is not one of
+    # them: what fails then is the reading, not the code
+    shape_known = bool(slices) and bool(pushes)
+    _plain_decide = ob.decide
+
+    def _translate_decide(rule, oblig, fi_, role, ok, what_ok, what_bad, summ_=None, site=None, **kw):
+        if not ok and not shape_known and fi_ is ft and role in ("consuming-move", "epsilon-move", "yield-iff-consumed-and-final",
+                                                                    "mark-at-pop"):
+            return rep.error(rule, oblig, fi_.qname, role, what_bad + " - but translate does not keep (remaining input, output, "
+                             "state) configurations that shrink by slicing any more; the rule cannot follow this search", site=site)
+        return _plain_decide(rule, oblig, fi_, role, ok, what_ok, what_bad, summ_, site=site, **kw)
+    ob.decide = _translate_decide
     # a consuming configuration carries a remainder that IS a slice made at that step; a silent one carries the popped
     # remainder itself (which, around the loop, may of course alias slices made in earlier steps)
     def _is_slice(av):
@@ -238,6 +262,7 @@ def run(eng, rep, tier):
               "translate does not mark (remaining, output) per state before expanding: an output-free epsilon cycle loops "
               "forever", None, site=site_of(prog, ft, ft.node))
 
+    ob.decide = _plain_decide
     # -------------------------------------------------------------- to_fst
     for recv_q, f, s in receivers(eng, "EpsilonNFA", "to_fst"):
         label = prog.classes[recv_q].name
